@@ -106,6 +106,8 @@ def queue_oracle(sc, tr):
     n, lanes = len(sc["jobs"]), sc["lanes"]
     for j in range(n):
         c = tr["counts"].get(j, 0)
+        if c == 0 and sc["alg"] == "serial":
+            return ("serial-job-dropped", "serial queue: job %d was submitted (by running job %s) but never executed; the queue was destroyed normally" % (j, sc["jobs"][j][4]))
         if c != 1:
             return ("job-not-exactly-once", "job %d was executed %d times (submitted once, queue destroyed)" % (j, c))
         if tr["started"].get(j, 0) != 1 or tr["finished"].get(j, 0) != 1:
@@ -151,14 +153,14 @@ def queue_oracle(sc, tr):
     for lab in tr["labels"]:
         f = lab.split(":")
         if f[0] == "a":
-            (pend_hi if f[2] == "h" else pend_n).append(int(f[1]))
+            (pend_hi if (f[2] == "h" and sc["alg"] != "serial") else pend_n).append(int(f[1]))
         elif f[0] == "t":
             j = int(f[2])
             if pend_hi:
                 if j != pend_hi[0]:
                     return ("order-high-first", "job %d was taken while high-priority job %d was waiting at the head" % (j, pend_hi[0]))
                 pend_hi.pop(0)
-            elif sc["alg"] == "fifo":
+            elif sc["alg"] in ("fifo", "serial"):
                 if j != pend_n[0]:
                     return ("order-fifo", "FIFO queue gave job %d before the older job %d" % (j, pend_n[0]))
                 pend_n.pop(0)
@@ -202,7 +204,10 @@ def run_queue_scenarios(chk, drv, model, scs, tag):
         if tr is None:
             chk.violation("queue-driver-answer", "unparsable driver answer", dict(scenario=lines[k], answer=a[:500], kind="queue"), found_input=False, broken="harness/cpp/queue_driver.cpp")
             continue
-        mreq.append("accepts %d %s %s" % (sc["lanes"], sc["alg"], ",".join(tr["labels"]) if tr["labels"] else "."))
+        if sc["alg"] == "serial":
+            mreq.append("saccepts %s" % (",".join(tr["labels"]) if tr["labels"] else "."))
+        else:
+            mreq.append("accepts %d %s %s" % (sc["lanes"], sc["alg"], ",".join(tr["labels"]) if tr["labels"] else "."))
         idx.append(k)
     rc2, mo, e2 = vlib.run_lines(model, mreq, timeout=600)
     assert rc2 == 0 and len(mo) == len(mreq), (rc2, e2[-500:])
@@ -212,6 +217,22 @@ def run_queue_scenarios(chk, drv, model, scs, tag):
         chk.count(nontrivial_key(sc, tr))
         bad = queue_oracle(sc, tr)
         rp = dict(kind="queue", scenario=lines[k], trace=tr["labels"], counts=tr["counts"], procs=tr["procs"], driver_err=tr["err"], model=m)
+        if sc["alg"] == "serial":
+            # the serial model predicts exactly which jobs are lost; the oracle decides whether losing any is a violation
+            dropped = sorted(j for j in range(len(sc["jobs"])) if tr["counts"].get(j, 0) == 0)
+            mp = m.split(" ")
+            model_ok = (m.startswith("OK 1 ") and len(mp) == 4 and tr["err"] == "-" and
+                        sorted(int(x) for x in mp[3].split(",") if x != ".") == dropped and
+                        sorted(int(x) for x in mp[2].split(",") if x != ".") == sorted(j for j in range(len(sc["jobs"])) if tr["counts"].get(j, 0) == 1))
+            if bad:
+                rp["model_agrees_on_lost_jobs"] = model_ok
+                chk.violation(bad[0], bad[1], rp, found_input=True, broken="c16 oracle on the real serial queue")
+            if model_ok:
+                ok += 1
+            else:
+                chk.violation("serial-correspondence", "the trace of the real serial queue is not a run of the serial model in Queue/Lanes.v (%s)" % (m if tr["err"] == "-" else tr["err"]),
+                              rp, found_input=False, broken="correspondence: Queue.Lanes.saccepts")
+            continue
         if bad:
             chk.violation(bad[0], bad[1], rp, found_input=True, broken="c16 oracle on the real queue")
             continue
@@ -236,6 +257,18 @@ CORPUS = [
     dict(lanes=3, alg="fifo", cancel=200, settle=0, jobs=[(0, False, b"", 500, -1, 0, 0)] + [(i, i % 2 == 0, b"x", 300, i - 1, 250, i % 2) for i in range(1, 9)]),
     dict(lanes=8, alg="prio", cancel=-1, settle=300, jobs=[(i, False, bytes([255 - i]), 100, -1 - (i % 3), 0, 0) for i in range(30)]),
 ]
+
+CORPUS_SERIAL = [
+    # serial-add-after-shutdown: job 0 is still running when the destructor queues its sentinel, then adds jobs 1 and 2
+    dict(lanes=1, alg="serial", cancel=-1, settle=0, jobs=[(0, False, b"a", 3000, -1, 0, 0), (1, False, b"b", 0, 0, 2500, 0), (2, True, b"c", 0, 0, 2600, 1)]),
+    dict(lanes=1, alg="serial", cancel=-1, settle=6000, jobs=[(0, False, b"a", 3000, -1, 0, 0), (1, False, b"b", 0, 0, 2500, 0), (2, True, b"c", 0, 0, 2600, 1)]),
+    dict(lanes=1, alg="serial", cancel=100, settle=0, jobs=[(i, i % 2 == 0, b"x", 200, -1 - (i % 2), 0, 1) for i in range(8)]),
+]
+
+def gen_serial(rng):
+    sc = gen_scenario(rng)
+    sc["alg"], sc["lanes"] = "serial", 1
+    return sc
 
 # ------------------------------------------------------------------ real children
 def sh_argv(script, shell="/bin/sh"):
@@ -621,7 +654,11 @@ def run(chk):
     ok = 0
     for i in range(0, len(scs), 50):
         ok += run_queue_scenarios(chk, drv, model, scs[i:i + 50], "mix" if i else "corpus")
+    sscs = list(CORPUS_SERIAL) + [gen_serial(rng) for _ in range(chk.n(40, 500))]
+    for i in range(0, len(sscs), 50):
+        ok += run_queue_scenarios(chk, drv, model, sscs[i:i + 50], "serial")
     chk.cov["job_mixes"] = len(scs)
+    chk.cov["serial_job_mixes"] = len(sscs)
     chk.cov["traces_validated_against_impl"] = ok
     T["queue_traces"] = round(time.time() - t0, 1); t0 = time.time()
 
